@@ -20,6 +20,8 @@ SPEC = {
         (M + "common::ScrambleMutation", "mahf::components::Component", {M + "MutationRate<Self>": ("field", "rm")}),
         (M + "common::PartialRandomBitstring", "mahf::components::Component", {M + "MutationRate<Self>": ("field", "rm")}),
     ],
+    # the evaluation counter of a run (or of a scope) starts at zero - also when an earlier run left a count behind
+    "C06": [("mahf::components::evaluation::PopulationEvaluator", "mahf::components::Component", {"mahf::state::common::Evaluations": ("const", 0)})],
     "C17": [("mahf::components::replacement::sa::ExponentialAnnealingAcceptance", "mahf::components::Component", {"mahf::components::replacement::sa::Temperature": ("field", "t_0")})],
     "C18": [
         ("mahf::components::swarm::pso::ParticleVelocitiesUpdate", "mahf::components::Component", {"mahf::components::swarm::pso::InertiaWeight<Self>": ("field", "weight")}),
